@@ -1,0 +1,63 @@
+//! Verification-harness support (feature `verif-hooks` only): schedule points and script drivers
+//! that expose crate-private components to an external differential checker.
+//!
+//! Nothing here changes scheduler behaviour; without an installed controller every hook is a
+//! no-op.
+
+pub mod drivers;
+pub mod rt;
+
+pub use crate::beneficiary::verif_drivers as beneficiary;
+pub use crate::scheduler::verif_drivers as sched;
+
+use crate::LocationAndType;
+use revm_context::result::ResultAndState;
+use revm_primitives::U256;
+use std::sync::{Arc, RwLock};
+
+/// Stable integer identity of a physical MV-memory location.
+pub(crate) fn loc_hash(location: &LocationAndType) -> usize {
+    let mut bytes = Vec::with_capacity(1 + 20 + 32);
+    match location {
+        LocationAndType::Basic(a) => {
+            bytes.push(0);
+            bytes.extend_from_slice(a.as_slice());
+        }
+        LocationAndType::Storage(a, slot) => {
+            bytes.push(1);
+            bytes.extend_from_slice(a.as_slice());
+            bytes.extend_from_slice(&slot.to_be_bytes::<32>());
+        }
+        LocationAndType::StorageReset(a) => {
+            bytes.push(2);
+            bytes.extend_from_slice(a.as_slice());
+        }
+        LocationAndType::Code(a) => {
+            bytes.push(3);
+            bytes.extend_from_slice(a.as_slice());
+        }
+    }
+    rt::fnv(&bytes)
+}
+
+/// Observer of ordered-commit events: `(txid, result and finalized state, deferred reward)`,
+/// called just before the commit is applied.
+pub type CommitObserver = dyn Fn(usize, &ResultAndState, Option<U256>) + Send + Sync;
+
+static COMMIT_OBSERVER: RwLock<Option<Arc<CommitObserver>>> = RwLock::new(None);
+
+/// Install (or clear) the commit observer.
+pub fn set_commit_observer(observer: Option<Arc<CommitObserver>>) {
+    *COMMIT_OBSERVER.write().unwrap() = observer;
+}
+
+pub(crate) fn commit_event(txid: usize, result: &crate::beneficiary::SpeculativeResult) {
+    let observer = COMMIT_OBSERVER.read().unwrap().clone();
+    if let Some(observer) = observer {
+        observer(
+            txid,
+            result.verif_result_and_state(),
+            result.deferred_reward().map(|reward| reward.verif_amount()),
+        );
+    }
+}
